@@ -158,7 +158,17 @@ def all_cases(tier, seed=0):
 
 def jobs(tier, seed):
     n = 64 if tier == "thorough" else 16
-    return [{"tier": tier, "seed": seed, "i": i, "n": n} for i in range(n)]
+    js = [{"tier": tier, "seed": seed, "i": i, "n": n} for i in range(n)]
+    for zone in ("Asia/Kathmandu", "America/St_Johns", "Pacific/Kiritimati"):
+        js.append({"tier": tier, "seed": seed, "zone": zone})  # decoding does not depend on the host's zone
+    return js
+
+
+def zone_cases(tier):
+    T = sorted(set(range(0, 86400, 997 if tier == "quick" else 61)) | set(T_CORN))
+    cs = [("V4", {"on": True, "remaining": t, "auto_off": 86399 - t}) for t in T]
+    cs += [("MINI", {"on": False, "remaining": 5400, "auto_off": 3600}), ("POWER_PLUG", {}), ("BREEZE", {}), ("RUNNER", {"position": 33, "direction": "down"})]
+    return cs
 
 
 def judge(res, tname, f, got):
@@ -178,8 +188,11 @@ BATCH = 32
 
 def run_job(job):
     res = Res()
-    set_zone("UTC")
-    cases = all_cases(job["tier"], job.get("seed", 0))[job["i"]::job["n"]]
+    set_zone(job.get("zone", "UTC"))
+    cases = zone_cases(job["tier"]) if "zone" in job else all_cases(job["tier"], job.get("seed", 0))[job["i"]::job["n"]]
+    for tname, f in cases:
+        if "zone" in job:
+            f["_zone"] = job["zone"]
     with Clock(1_700_000_000.0):
         bw = BridgeWorld(1)
         try:
@@ -217,12 +230,13 @@ def run_job(job):
                 res.sample({"type": tname, "fields": f, "datagram": B.encode(tname, **f).hex(), "expected": {k: v for k, v in B.expected(tname, **f).items() if not k.startswith("_")}})
         finally:
             bw.close()
+            set_zone("UTC")
     return res
 
 
 def replay(case):
     res = Res()
-    set_zone("UTC")
+    set_zone(case["fields"].get("_zone", "UTC"))
     with Clock(1_700_000_000.0):
         bw = BridgeWorld(1)
         try:
@@ -232,6 +246,7 @@ def replay(case):
             judge(res, case["type"], case["fields"], list(bw.calls))
         finally:
             bw.close()
+            set_zone("UTC")
     return res.violations
 
 
